@@ -246,6 +246,8 @@ def run(prop, tier, seed):
 # PRECONDITION of the unchecked accesses: every digraph produced by the safe API is well-formed (no arc to a non-vertex,
 # no self-loop, order consistent), which is what the searches of C01 / C14 / C16 establish on their inputs.
 STANDIN_ALIASES = {"C13": ["C13", "C01", "C14", "C16"]}
+# properties whose search is repeated with overflow checks on (generators / conversions compute sizes and seeds)
+OVERFLOW_PROFILE_PROPS = {"C14", "C15", "C16"}
 STANDIN_KIND = {
     "C13": "replay searcher (bounded, NOT proof), three parts: (a) every vertex-taking query of every representation with ids that are not vertices "
            "(order, order+1, far-out ids, gaps of a non-contiguous AdjacencyMap) on all digraphs of order <= 3 and structured larger ones, graaf compiled "
@@ -270,7 +272,21 @@ def search(prop, seed, failures, tier="quick"):
         last["evaluated"] = total
         last["note"] = "(%s stand-in via the %s searches) no failing input" % (prop, "/".join(STANDIN_ALIASES[prop]))
         return last
-    return _search(prop, seed, failures, tier)
+    r = _search(prop, seed, failures, tier)
+    if prop in OVERFLOW_PROFILE_PROPS and r.get("input") is None and not r.get("error"):
+        # second pass with graaf compiled with overflow checks and debug assertions (cargo profile `c13` of the replay crate), as in
+        # a dev / test build: an arithmetic overflow on a valid argument (a seed or an order at a boundary) panics there, and a
+        # panic on a valid input is a violation; a release build would wrap silently
+        r2 = _search(prop, seed, failures, tier, profile="c13")
+        if r2.get("input") is not None:
+            r2["input"]["search_profile"] = "c13"
+            r2["evaluated"] = r.get("evaluated", 0) + r2.get("evaluated", 0)
+            r2["note"] = (r2.get("note") or "") + " (found with overflow checks and debug assertions on: cargo profile c13 of the replay crate, as in a dev / test build)"
+            return r2
+        if not r2.get("error"):
+            r["evaluated"] = r.get("evaluated", 0) + r2.get("evaluated", 0)
+            r["note"] = (r.get("note") or "") + " (both profiles: release, and c13 = overflow checks + debug assertions)"
+    return r
 
 
 def _search(prop, seed, failures, tier="quick", profile="release"):
@@ -354,7 +370,7 @@ def replay(prop, path):
         print("no failing input recorded (the verifier gave no counterexample); the failed obligations and verifier output are in the file")
         return 0
     q = d["failing_input"].get("property", prop)   # a stand-in alias (C13 via the C01 / C14 / C16 searches) replays under its own search
-    prof = "c13" if q == "C13" else "release"
+    prof = d["failing_input"].get("search_profile") or ("c13" if q == "C13" else "release")
     exe = os.path.join(VERIF, "build", "replay-target", prof, "search")
     if not os.path.exists(exe):
         subprocess.run(["cargo", "build", "--profile", prof, "--bin", "search"], cwd=os.path.join(VERIF, "replay"), capture_output=True, text=True)
